@@ -1,5 +1,5 @@
 """C04 — unmatched requests get 404 or 405 with a truthful Allow header."""
-from .lib import (PLUMBING, callee_allow, callers, closure_args_of_call, const_int, operand_local, status_const_of_ctor, try_edges)
+from .lib import (PLUMBING, callee_allow, callers, closure_args_of_call, const_int, operand_local, option_some_edges, status_const_of_ctor, switches_on_value, try_edges)
 
 LEVEL = "other"
 TECHNIQUE = "static analysis: decision-table extraction from lookup_route's MIR, guard dominance of every Allow insertion by the version-filtered selection predicate, who-calls census for handlers"
@@ -42,7 +42,7 @@ def r1_decision(ctx):
         return
     abb, at = anys[0]
     # switch on any's result
-    sw = [(sbb, st) for sbb, st in lr.switches() if operand_local(st["discr"]) == at["dest"]["l"]]
+    sw = switches_on_value(lr, at["dest"]["l"])
     if len(sw) != 1:
         ctx.lost(R, "switch on the result of any()")
         return
@@ -132,19 +132,12 @@ def r2_allow_truthful(ctx):
         nexts = ms.calls(r"iter::Iterator::next$")
         guard_ok = False
         detail = "no guarding find_handler_matching_version(..).is_some() switch"
-        for sbb, st in lr.switches():
-            info = lr.switch_on(sbb)
-            if info["kind"] != "bool":
-                continue
-            dbb, kind, node = info["def"]
-            if kind != "call" or not (node.get("callee") or "").endswith("Option::<T>::is_some"):
-                continue
-            gs = lr.slice(node["args"][0])
+        for sbb, tb, optop in option_some_edges(lr):
+            gs = lr.slice(optop)
             fh = gs.calls(r"^router::find_handler_matching_version$")
             if not fh:
                 continue
-            tb, fb = lr.bool_edges(sbb)
-            if not lr.edge_dominates(sbb, tb, bb):
+            if tb is None or not lr.edge_dominates(sbb, tb, bb):
                 detail = "a version guard exists but its true edge does not dominate add_header"
                 continue
             c, hb, ht = fh[0]
@@ -234,4 +227,37 @@ def r4_no_handler(ctx):
               "the Break edge of lookup_route(..)? reaches no handler call and builds no handler task", (hb, te["switch_bb"]))
 
 
-RULES = [("C04.R1", r1_decision), ("C04.R2", r2_allow_truthful), ("C04.R3", r3_allow_only_on_405), ("C04.R4", r4_no_handler)]
+def r5_allow_reaches_the_wire(ctx):
+    R = ctx.rule("C04.R5", "the Allow values collected on the 405 error reach the HTTP response: add_header appends (keeps earlier values of the same name) and "
+                 "HttpError::into_response moves the error's HeaderMap into the response wholesale", floor=2)
+    from .c13 import _headers_wholesale
+    ah = ctx.need_fn(ctx.ds, R, r"^error::HttpError::add_header$")
+    app = ah.live_calls(r"http::HeaderMap::<T>::(try_)?append$")
+    ins = ah.live_calls(r"http::HeaderMap::<T>::(try_)?insert$")
+    okv = False
+    for bb, t in app:
+        n, v = ah.slice(t["args"][1]), ah.slice(t["args"][2])
+        okv = 2 in n.params() and 3 in v.params()
+    ctx.check(R, "add_header-appends", bool(app) and not ins and okv,
+              "add_header stores (name, value) parameters with HeaderMap::append=%s (insert would keep only the last Allow method: %s)" % (bool(app) and okv, bool(ins)), ah)
+    ir = ctx.need_fn(ctx.ds, R, r"^error::HttpError::into_response$")
+    w = _headers_wholesale(ir)
+    ctx.check(R, "error-headers-moved-wholesale", w, "into_response transfers self.headers as a whole: %s (a per-element copy of an owned HeaderMap drops all but the first value of a repeated name such as Allow)" % w, ir)
+
+
+RULES = [("C04.R5", r5_allow_reaches_the_wire), ("C04.R1", r1_decision), ("C04.R2", r2_allow_truthful), ("C04.R3", r3_allow_only_on_405), ("C04.R4", r4_no_handler)]
+
+SELFTEST = [
+    {"name": "prefix-f2", "kind": "mutant", "revert": "55289db", "expect": ["C04.R2"], "why": "Allow lists methods not served at the request's version (pre-fix code)"},
+    {"name": "any-ignores-version", "kind": "mutant", "edits": [("dropshot/src/router.rs", "        if node.methods.values().any(|handlers| {\n            find_handler_matching_version(handlers, version).is_some()\n        }) {",
+                                                              "        if node.methods.values().any(|handlers| {\n            find_handler_matching_version(handlers, None).is_some()\n        }) {")], "expect": ["C04.R1"],
+     "why": "405 instead of 404 when the path exists only at other versions"},
+    {"name": "no-allow-header", "kind": "mutant", "edits": [("dropshot/src/router.rs", "                    err.add_header(http::header::ALLOW, allowed)\n                        .expect(\"method should be a valid allow header\");", "                    let _ = allowed;")], "expect": ["C04.R2", "C04.R3"],
+     "why": "405 without Allow"},
+    {"name": "add_header-inserts", "kind": "mutant", "edits": [("dropshot/src/error.rs", "        self.headers_mut().try_append(name, value)?;\n        Ok(self)\n    }\n\n    /// Adds a header to the [`http::HeaderMap`] of headers to add to responses\n    /// generated from this error, taking the error by value.",
+                                                              "        self.headers_mut().try_insert(name, value)?;\n        Ok(self)\n    }\n\n    /// Adds a header to the [`http::HeaderMap`] of headers to add to responses\n    /// generated from this error, taking the error by value.")], "expect": ["C04.R5"], "why": "only the last allowed method survives"},
+    {"name": "named-bool", "kind": "benign", "edits": [("dropshot/src/router.rs", "        if node.methods.values().any(|handlers| {\n            find_handler_matching_version(handlers, version).is_some()\n        }) {",
+                                                     "        let other_method_served = node.methods.values().any(|handlers| {\n            find_handler_matching_version(handlers, version).is_some()\n        });\n        if other_method_served {")], "why": "let-bound predicate"},
+    {"name": "guard-as-match", "kind": "benign", "edits": [("dropshot/src/router.rs", "                if find_handler_matching_version(handlers, version).is_some() {\n                    err.add_header(http::header::ALLOW, allowed)\n                        .expect(\"method should be a valid allow header\");\n                }",
+                                                         "                if find_handler_matching_version(handlers, version).is_none() {\n                    continue;\n                }\n                err.add_header(http::header::ALLOW, allowed)\n                    .expect(\"method should be a valid allow header\");")], "why": "negated guard with continue"},
+]
